@@ -6,7 +6,7 @@
     functions ([paths_of], [paths_to], [connected_components], ...) transcribe graph/*.go; panics
     and fuel exhaustion are the result values [Panic]/[Hang], so "returns [Ok]" includes
     termination of every loop and recursion of the model. *)
-From Algo.C14 Require Import Spec ProofsBasic ProofsTrav ProofsReach ProofsBfs ProofsScc ProofsCC ProofsSpt ProofsTopo ProofsCycle ProofsOrders.
+From Algo.C14 Require Import Spec ProofsBasic ProofsTrav ProofsReach ProofsBfs ProofsScc ProofsCC ProofsSpt ProofsTopo ProofsCycle ProofsOrders ProofsMsf1 ProofsMsf2.
 
 (** * The property at full strength *)
 Definition nonneg (es : list edge) : Prop := forall e, In e es -> (0 <= e_w e)%Z.
@@ -208,22 +208,36 @@ Proof.
   exact (K p P).
 Qed.
 
-(** Clause 6 (Prim), partial.  [check_msf] (graph edges, acyclic by sequential quick-find
-    labelling, and for every graph edge (a,b,w): a and b are joined by forest edges of weight <= w,
-    i.e. spanning + cycle property) is run on the implementation's and the model's forests for
-    every generated graph, together with the comparison against Kruskal's weight.  Proved here:
-    an accepted forest consists of graph edges with end points in range.  Missing: acyclicity /
-    spanning / minimum weight from the certificate (the exchange argument), and that Prim's
-    output always passes. *)
-Theorem C14_check_msf_edges_partial :
-  forall g es, check_msf g es = true ->
-    forall e, In e es -> gedge g e /\ e_a e < g_n g /\ e_b e < g_n g.
+(** Checker theorem for minimum spanning forests, unbounded, any integer weights: an edge set
+    accepted by [check_msf] (graph edges; acyclic by sequential quick-find labelling; for every
+    graph edge (a,b,w) the end points are joined by accepted edges of weight <= w) is a spanning
+    forest -- graph edges, no edge redundant, same connectivity as the graph -- and no spanning
+    forest has smaller total weight.  (Proof: class counting on the quick-find labelling gives
+    |F_{<=t}| >= |F'_{<=t}| for every threshold t and every spanning forest F', and equal sizes;
+    a layer-cake sum turns the threshold counts into the weight inequality.) *)
+Theorem C14_check_msf_sound :
+  forall n es T,
+    let g := mk_graph false n es in
+    check_msf g T = true ->
+    spanning_forest g T /\
+    forall T', spanning_forest g T' -> (weight_of T <= weight_of T')%Z.
+Proof. intros n es T. exact (check_msf_sound n es T). Qed.
+
+(** Clause 6 (Prim), partial: whenever the forest computed by Prim passes the checker it is a
+    minimum spanning forest and [Weight()] is its weight.  Missing: that Prim's output always
+    passes (checked on every generated graph by the extracted checker). *)
+Theorem C14_prim_partial :
+  forall n es f w,
+    let g := mk_graph false n es in
+    minimum_spanning_tree g = Ok (f, w) -> check_msf g f = true ->
+    w = weight_of f /\ spanning_forest g f /\
+    forall f', spanning_forest g f' -> (w <= weight_of f')%Z.
 Proof.
-  intros g es H e He. unfold check_msf in H.
-  apply andb_prop in H. destruct H as [H _]. apply andb_prop in H. destruct H as [H _].
-  rewrite forallb_forall in H. specialize (H e He).
-  apply andb_prop in H. destruct H as [H1 H2].
-  destruct (edge_in_true g e H1) as [A B]. split; auto. split; auto. now apply Nat.ltb_lt.
+  intros n es f w g E H.
+  assert (Hw : w = weight_of f).
+  { unfold minimum_spanning_tree in E. destruct (prim_roots _ _ _); [|discriminate].
+    injection E as <- <-. reflexivity. }
+  destruct (check_msf_sound n es f H) as [A B]. subst w. auto.
 Qed.
 
 (** Soundness of the simple certificate checkers run on the implementation's answers. *)
@@ -258,7 +272,8 @@ Print Assumptions C14_topological_order_acyclic.
 Print Assumptions C14_topological.
 Print Assumptions C14_check_spt_sound.
 Print Assumptions C14_dijkstra_partial.
-Print Assumptions C14_check_msf_edges_partial.
+Print Assumptions C14_check_msf_sound.
+Print Assumptions C14_prim_partial.
 Print Assumptions C14_check_path_sound.
 Print Assumptions C14_check_cycle_sound.
 Print Assumptions C14_check_topo_sound.
